@@ -419,7 +419,7 @@ Lemma tcalls_ser_state t mem cs c m' tbl s t1 s1 b1 :
   s1 = mksst (TProved c :: s_stack s) m' (s_claims s) (s_phase s).
 Proof.
   intros Hd Hm Hl H E R. subst mem. apply ser_run_st in R.
-  rewrite (tcalls_st inS loads instopt axs t s cs c m' Hd Hm Hl H) in R. congruence.
+  rewrite (tcalls_st inS loads instopt axs t s cs c m' (dynamic_no_plug_inst t Hd) Hm Hl H) in R. congruence.
 Qed.
 
 Lemma tcalls_exec t : forall ph mem cs c m' tbl s tbl' s' bs K C,
